@@ -146,6 +146,8 @@ def check_model (spec):
     observe.solve (m)
     if not np.isfinite (m.current).all ():
         return dict (status = 'discard', reason = 'non-finite currents')
+    if not (m.power > 0):
+        return dict (status = 'discard', reason = 'sources deliver no net power (fields cannot be scaled to a power level)')
     o    = spec ['out']
     opts = set (o ['opts'])
     zen  = MM.Angle (*o ['theta'])
